@@ -348,3 +348,34 @@ func (m *Model) pinnedAbove(t int64) bool {
 	}
 	return false
 }
+
+// VersionCandidates returns the version numbers worth trying / querying, ascending, starting at from: every
+// number from..Latest+1 while the numbers are small; with a large initial version only the interesting ones
+// (0, 1, the numbers just around the first ever, the first retained and the latest version, every retained
+// version).
+func (m *Model) VersionCandidates(from int64) []int64 {
+	if m.Latest <= 40 {
+		out := make([]int64, 0, m.Latest+2)
+		for v := from; v <= m.Latest+1; v++ {
+			out = append(out, v)
+		}
+		return out
+	}
+	set := map[int64]bool{0: true, 1: true, 2: true, m.Latest: true, m.Latest + 1: true, m.Latest + 2: true}
+	for _, b := range []int64{m.Genesis, m.First, m.IV} {
+		for d := int64(-1); d <= 1; d++ {
+			set[b+d] = true
+		}
+	}
+	for v := range m.Conts {
+		set[v] = true
+	}
+	var out []int64
+	for v := range set {
+		if v >= from && v <= m.Latest+1 {
+			out = append(out, v)
+		}
+	}
+	sort.Slice(out, func(i, j int) bool { return out[i] < out[j] })
+	return out
+}
